@@ -13,6 +13,7 @@ pub mod p_HeapBytes__LockedRW__write_index;
 pub mod p_HeapBytes__LockedRW__write_fill;
 pub mod p_HeapBytes__LockedRW__resize;
 pub mod p_HeapBytes__LockedRW__clone;
+pub mod p_HeapBytes__LockedRW__clone_from;
 pub mod p_HeapBytes__LockedRW__t_munlock;
 pub mod p_HeapBytes__LockedRW__t_mprotect_readonly;
 pub mod p_HeapBytes__LockedRW__t_mprotect_readwrite;
@@ -26,6 +27,7 @@ pub mod p_HeapBytes__LockedRO__read_len;
 pub mod p_HeapBytes__LockedRO__read_index;
 pub mod p_HeapBytes__LockedRO__read_range;
 pub mod p_HeapBytes__LockedRO__clone;
+pub mod p_HeapBytes__LockedRO__clone_from;
 pub mod p_HeapBytes__LockedRO__t_munlock;
 pub mod p_HeapBytes__LockedRO__t_mprotect_readonly;
 pub mod p_HeapBytes__LockedRO__t_mprotect_readwrite;
@@ -46,6 +48,7 @@ pub mod p_HeapBytes__UnlockedRW__write_index;
 pub mod p_HeapBytes__UnlockedRW__write_fill;
 pub mod p_HeapBytes__UnlockedRW__resize;
 pub mod p_HeapBytes__UnlockedRW__clone;
+pub mod p_HeapBytes__UnlockedRW__clone_from;
 pub mod p_HeapBytes__UnlockedRW__t_mlock;
 pub mod p_HeapBytes__UnlockedRW__t_munlock;
 pub mod p_HeapBytes__UnlockedRW__t_mprotect_readonly;
@@ -63,6 +66,7 @@ pub mod p_HeapBytes__UnlockedRO__read_len;
 pub mod p_HeapBytes__UnlockedRO__read_index;
 pub mod p_HeapBytes__UnlockedRO__read_range;
 pub mod p_HeapBytes__UnlockedRO__clone;
+pub mod p_HeapBytes__UnlockedRO__clone_from;
 pub mod p_HeapBytes__UnlockedRO__t_mlock;
 pub mod p_HeapBytes__UnlockedRO__t_munlock;
 pub mod p_HeapBytes__UnlockedRO__t_mprotect_readonly;
@@ -129,6 +133,7 @@ pub mod p_HeapByteArray32__UnlockedRW__write_fill;
 pub mod p_HeapByteArray32__UnlockedRW__array_as_array;
 pub mod p_HeapByteArray32__UnlockedRW__array_as_mut_array;
 pub mod p_HeapByteArray32__UnlockedRW__clone;
+pub mod p_HeapByteArray32__UnlockedRW__clone_from;
 pub mod p_HeapByteArray32__UnlockedRW__t_mlock;
 pub mod p_HeapByteArray32__UnlockedRW__t_munlock;
 pub mod p_HeapByteArray32__UnlockedRW__t_mprotect_readonly;
@@ -147,6 +152,7 @@ pub mod p_HeapByteArray32__UnlockedRO__read_index;
 pub mod p_HeapByteArray32__UnlockedRO__read_range;
 pub mod p_HeapByteArray32__UnlockedRO__array_as_array;
 pub mod p_HeapByteArray32__UnlockedRO__clone;
+pub mod p_HeapByteArray32__UnlockedRO__clone_from;
 pub mod p_HeapByteArray32__UnlockedRO__t_mlock;
 pub mod p_HeapByteArray32__UnlockedRO__t_munlock;
 pub mod p_HeapByteArray32__UnlockedRO__t_mprotect_readonly;
@@ -213,6 +219,7 @@ pub mod p_HeapByteArray4096__UnlockedRW__write_fill;
 pub mod p_HeapByteArray4096__UnlockedRW__array_as_array;
 pub mod p_HeapByteArray4096__UnlockedRW__array_as_mut_array;
 pub mod p_HeapByteArray4096__UnlockedRW__clone;
+pub mod p_HeapByteArray4096__UnlockedRW__clone_from;
 pub mod p_HeapByteArray4096__UnlockedRW__t_mlock;
 pub mod p_HeapByteArray4096__UnlockedRW__t_munlock;
 pub mod p_HeapByteArray4096__UnlockedRW__t_mprotect_readonly;
@@ -231,6 +238,7 @@ pub mod p_HeapByteArray4096__UnlockedRO__read_index;
 pub mod p_HeapByteArray4096__UnlockedRO__read_range;
 pub mod p_HeapByteArray4096__UnlockedRO__array_as_array;
 pub mod p_HeapByteArray4096__UnlockedRO__clone;
+pub mod p_HeapByteArray4096__UnlockedRO__clone_from;
 pub mod p_HeapByteArray4096__UnlockedRO__t_mlock;
 pub mod p_HeapByteArray4096__UnlockedRO__t_munlock;
 pub mod p_HeapByteArray4096__UnlockedRO__t_mprotect_readonly;
@@ -263,6 +271,7 @@ pub mod p_HeapBytesPagePlusSpare__LockedRW__write_index;
 pub mod p_HeapBytesPagePlusSpare__LockedRW__write_fill;
 pub mod p_HeapBytesPagePlusSpare__LockedRW__resize;
 pub mod p_HeapBytesPagePlusSpare__LockedRW__clone;
+pub mod p_HeapBytesPagePlusSpare__LockedRW__clone_from;
 pub mod p_HeapBytesPagePlusSpare__LockedRW__t_munlock;
 pub mod p_HeapBytesPagePlusSpare__LockedRW__t_mprotect_readonly;
 pub mod p_HeapBytesPagePlusSpare__LockedRW__t_mprotect_readwrite;
@@ -276,6 +285,7 @@ pub mod p_HeapBytesPagePlusSpare__LockedRO__read_len;
 pub mod p_HeapBytesPagePlusSpare__LockedRO__read_index;
 pub mod p_HeapBytesPagePlusSpare__LockedRO__read_range;
 pub mod p_HeapBytesPagePlusSpare__LockedRO__clone;
+pub mod p_HeapBytesPagePlusSpare__LockedRO__clone_from;
 pub mod p_HeapBytesPagePlusSpare__LockedRO__t_munlock;
 pub mod p_HeapBytesPagePlusSpare__LockedRO__t_mprotect_readonly;
 pub mod p_HeapBytesPagePlusSpare__LockedRO__t_mprotect_readwrite;
@@ -296,6 +306,7 @@ pub mod p_HeapBytesPagePlusSpare__UnlockedRW__write_index;
 pub mod p_HeapBytesPagePlusSpare__UnlockedRW__write_fill;
 pub mod p_HeapBytesPagePlusSpare__UnlockedRW__resize;
 pub mod p_HeapBytesPagePlusSpare__UnlockedRW__clone;
+pub mod p_HeapBytesPagePlusSpare__UnlockedRW__clone_from;
 pub mod p_HeapBytesPagePlusSpare__UnlockedRW__t_mlock;
 pub mod p_HeapBytesPagePlusSpare__UnlockedRW__t_munlock;
 pub mod p_HeapBytesPagePlusSpare__UnlockedRW__t_mprotect_readonly;
@@ -313,6 +324,7 @@ pub mod p_HeapBytesPagePlusSpare__UnlockedRO__read_len;
 pub mod p_HeapBytesPagePlusSpare__UnlockedRO__read_index;
 pub mod p_HeapBytesPagePlusSpare__UnlockedRO__read_range;
 pub mod p_HeapBytesPagePlusSpare__UnlockedRO__clone;
+pub mod p_HeapBytesPagePlusSpare__UnlockedRO__clone_from;
 pub mod p_HeapBytesPagePlusSpare__UnlockedRO__t_mlock;
 pub mod p_HeapBytesPagePlusSpare__UnlockedRO__t_munlock;
 pub mod p_HeapBytesPagePlusSpare__UnlockedRO__t_mprotect_readonly;
@@ -399,6 +411,7 @@ const PROGS: &[(&str, fn())] = &[
     ("HeapBytes__LockedRW__write_fill", p_HeapBytes__LockedRW__write_fill::run as fn()),
     ("HeapBytes__LockedRW__resize", p_HeapBytes__LockedRW__resize::run as fn()),
     ("HeapBytes__LockedRW__clone", p_HeapBytes__LockedRW__clone::run as fn()),
+    ("HeapBytes__LockedRW__clone_from", p_HeapBytes__LockedRW__clone_from::run as fn()),
     ("HeapBytes__LockedRW__t_munlock", p_HeapBytes__LockedRW__t_munlock::run as fn()),
     ("HeapBytes__LockedRW__t_mprotect_readonly", p_HeapBytes__LockedRW__t_mprotect_readonly::run as fn()),
     ("HeapBytes__LockedRW__t_mprotect_readwrite", p_HeapBytes__LockedRW__t_mprotect_readwrite::run as fn()),
@@ -412,6 +425,7 @@ const PROGS: &[(&str, fn())] = &[
     ("HeapBytes__LockedRO__read_index", p_HeapBytes__LockedRO__read_index::run as fn()),
     ("HeapBytes__LockedRO__read_range", p_HeapBytes__LockedRO__read_range::run as fn()),
     ("HeapBytes__LockedRO__clone", p_HeapBytes__LockedRO__clone::run as fn()),
+    ("HeapBytes__LockedRO__clone_from", p_HeapBytes__LockedRO__clone_from::run as fn()),
     ("HeapBytes__LockedRO__t_munlock", p_HeapBytes__LockedRO__t_munlock::run as fn()),
     ("HeapBytes__LockedRO__t_mprotect_readonly", p_HeapBytes__LockedRO__t_mprotect_readonly::run as fn()),
     ("HeapBytes__LockedRO__t_mprotect_readwrite", p_HeapBytes__LockedRO__t_mprotect_readwrite::run as fn()),
@@ -432,6 +446,7 @@ const PROGS: &[(&str, fn())] = &[
     ("HeapBytes__UnlockedRW__write_fill", p_HeapBytes__UnlockedRW__write_fill::run as fn()),
     ("HeapBytes__UnlockedRW__resize", p_HeapBytes__UnlockedRW__resize::run as fn()),
     ("HeapBytes__UnlockedRW__clone", p_HeapBytes__UnlockedRW__clone::run as fn()),
+    ("HeapBytes__UnlockedRW__clone_from", p_HeapBytes__UnlockedRW__clone_from::run as fn()),
     ("HeapBytes__UnlockedRW__t_mlock", p_HeapBytes__UnlockedRW__t_mlock::run as fn()),
     ("HeapBytes__UnlockedRW__t_munlock", p_HeapBytes__UnlockedRW__t_munlock::run as fn()),
     ("HeapBytes__UnlockedRW__t_mprotect_readonly", p_HeapBytes__UnlockedRW__t_mprotect_readonly::run as fn()),
@@ -449,6 +464,7 @@ const PROGS: &[(&str, fn())] = &[
     ("HeapBytes__UnlockedRO__read_index", p_HeapBytes__UnlockedRO__read_index::run as fn()),
     ("HeapBytes__UnlockedRO__read_range", p_HeapBytes__UnlockedRO__read_range::run as fn()),
     ("HeapBytes__UnlockedRO__clone", p_HeapBytes__UnlockedRO__clone::run as fn()),
+    ("HeapBytes__UnlockedRO__clone_from", p_HeapBytes__UnlockedRO__clone_from::run as fn()),
     ("HeapBytes__UnlockedRO__t_mlock", p_HeapBytes__UnlockedRO__t_mlock::run as fn()),
     ("HeapBytes__UnlockedRO__t_munlock", p_HeapBytes__UnlockedRO__t_munlock::run as fn()),
     ("HeapBytes__UnlockedRO__t_mprotect_readonly", p_HeapBytes__UnlockedRO__t_mprotect_readonly::run as fn()),
@@ -515,6 +531,7 @@ const PROGS: &[(&str, fn())] = &[
     ("HeapByteArray32__UnlockedRW__array_as_array", p_HeapByteArray32__UnlockedRW__array_as_array::run as fn()),
     ("HeapByteArray32__UnlockedRW__array_as_mut_array", p_HeapByteArray32__UnlockedRW__array_as_mut_array::run as fn()),
     ("HeapByteArray32__UnlockedRW__clone", p_HeapByteArray32__UnlockedRW__clone::run as fn()),
+    ("HeapByteArray32__UnlockedRW__clone_from", p_HeapByteArray32__UnlockedRW__clone_from::run as fn()),
     ("HeapByteArray32__UnlockedRW__t_mlock", p_HeapByteArray32__UnlockedRW__t_mlock::run as fn()),
     ("HeapByteArray32__UnlockedRW__t_munlock", p_HeapByteArray32__UnlockedRW__t_munlock::run as fn()),
     ("HeapByteArray32__UnlockedRW__t_mprotect_readonly", p_HeapByteArray32__UnlockedRW__t_mprotect_readonly::run as fn()),
@@ -533,6 +550,7 @@ const PROGS: &[(&str, fn())] = &[
     ("HeapByteArray32__UnlockedRO__read_range", p_HeapByteArray32__UnlockedRO__read_range::run as fn()),
     ("HeapByteArray32__UnlockedRO__array_as_array", p_HeapByteArray32__UnlockedRO__array_as_array::run as fn()),
     ("HeapByteArray32__UnlockedRO__clone", p_HeapByteArray32__UnlockedRO__clone::run as fn()),
+    ("HeapByteArray32__UnlockedRO__clone_from", p_HeapByteArray32__UnlockedRO__clone_from::run as fn()),
     ("HeapByteArray32__UnlockedRO__t_mlock", p_HeapByteArray32__UnlockedRO__t_mlock::run as fn()),
     ("HeapByteArray32__UnlockedRO__t_munlock", p_HeapByteArray32__UnlockedRO__t_munlock::run as fn()),
     ("HeapByteArray32__UnlockedRO__t_mprotect_readonly", p_HeapByteArray32__UnlockedRO__t_mprotect_readonly::run as fn()),
@@ -599,6 +617,7 @@ const PROGS: &[(&str, fn())] = &[
     ("HeapByteArray4096__UnlockedRW__array_as_array", p_HeapByteArray4096__UnlockedRW__array_as_array::run as fn()),
     ("HeapByteArray4096__UnlockedRW__array_as_mut_array", p_HeapByteArray4096__UnlockedRW__array_as_mut_array::run as fn()),
     ("HeapByteArray4096__UnlockedRW__clone", p_HeapByteArray4096__UnlockedRW__clone::run as fn()),
+    ("HeapByteArray4096__UnlockedRW__clone_from", p_HeapByteArray4096__UnlockedRW__clone_from::run as fn()),
     ("HeapByteArray4096__UnlockedRW__t_mlock", p_HeapByteArray4096__UnlockedRW__t_mlock::run as fn()),
     ("HeapByteArray4096__UnlockedRW__t_munlock", p_HeapByteArray4096__UnlockedRW__t_munlock::run as fn()),
     ("HeapByteArray4096__UnlockedRW__t_mprotect_readonly", p_HeapByteArray4096__UnlockedRW__t_mprotect_readonly::run as fn()),
@@ -617,6 +636,7 @@ const PROGS: &[(&str, fn())] = &[
     ("HeapByteArray4096__UnlockedRO__read_range", p_HeapByteArray4096__UnlockedRO__read_range::run as fn()),
     ("HeapByteArray4096__UnlockedRO__array_as_array", p_HeapByteArray4096__UnlockedRO__array_as_array::run as fn()),
     ("HeapByteArray4096__UnlockedRO__clone", p_HeapByteArray4096__UnlockedRO__clone::run as fn()),
+    ("HeapByteArray4096__UnlockedRO__clone_from", p_HeapByteArray4096__UnlockedRO__clone_from::run as fn()),
     ("HeapByteArray4096__UnlockedRO__t_mlock", p_HeapByteArray4096__UnlockedRO__t_mlock::run as fn()),
     ("HeapByteArray4096__UnlockedRO__t_munlock", p_HeapByteArray4096__UnlockedRO__t_munlock::run as fn()),
     ("HeapByteArray4096__UnlockedRO__t_mprotect_readonly", p_HeapByteArray4096__UnlockedRO__t_mprotect_readonly::run as fn()),
@@ -649,6 +669,7 @@ const PROGS: &[(&str, fn())] = &[
     ("HeapBytesPagePlusSpare__LockedRW__write_fill", p_HeapBytesPagePlusSpare__LockedRW__write_fill::run as fn()),
     ("HeapBytesPagePlusSpare__LockedRW__resize", p_HeapBytesPagePlusSpare__LockedRW__resize::run as fn()),
     ("HeapBytesPagePlusSpare__LockedRW__clone", p_HeapBytesPagePlusSpare__LockedRW__clone::run as fn()),
+    ("HeapBytesPagePlusSpare__LockedRW__clone_from", p_HeapBytesPagePlusSpare__LockedRW__clone_from::run as fn()),
     ("HeapBytesPagePlusSpare__LockedRW__t_munlock", p_HeapBytesPagePlusSpare__LockedRW__t_munlock::run as fn()),
     ("HeapBytesPagePlusSpare__LockedRW__t_mprotect_readonly", p_HeapBytesPagePlusSpare__LockedRW__t_mprotect_readonly::run as fn()),
     ("HeapBytesPagePlusSpare__LockedRW__t_mprotect_readwrite", p_HeapBytesPagePlusSpare__LockedRW__t_mprotect_readwrite::run as fn()),
@@ -662,6 +683,7 @@ const PROGS: &[(&str, fn())] = &[
     ("HeapBytesPagePlusSpare__LockedRO__read_index", p_HeapBytesPagePlusSpare__LockedRO__read_index::run as fn()),
     ("HeapBytesPagePlusSpare__LockedRO__read_range", p_HeapBytesPagePlusSpare__LockedRO__read_range::run as fn()),
     ("HeapBytesPagePlusSpare__LockedRO__clone", p_HeapBytesPagePlusSpare__LockedRO__clone::run as fn()),
+    ("HeapBytesPagePlusSpare__LockedRO__clone_from", p_HeapBytesPagePlusSpare__LockedRO__clone_from::run as fn()),
     ("HeapBytesPagePlusSpare__LockedRO__t_munlock", p_HeapBytesPagePlusSpare__LockedRO__t_munlock::run as fn()),
     ("HeapBytesPagePlusSpare__LockedRO__t_mprotect_readonly", p_HeapBytesPagePlusSpare__LockedRO__t_mprotect_readonly::run as fn()),
     ("HeapBytesPagePlusSpare__LockedRO__t_mprotect_readwrite", p_HeapBytesPagePlusSpare__LockedRO__t_mprotect_readwrite::run as fn()),
@@ -682,6 +704,7 @@ const PROGS: &[(&str, fn())] = &[
     ("HeapBytesPagePlusSpare__UnlockedRW__write_fill", p_HeapBytesPagePlusSpare__UnlockedRW__write_fill::run as fn()),
     ("HeapBytesPagePlusSpare__UnlockedRW__resize", p_HeapBytesPagePlusSpare__UnlockedRW__resize::run as fn()),
     ("HeapBytesPagePlusSpare__UnlockedRW__clone", p_HeapBytesPagePlusSpare__UnlockedRW__clone::run as fn()),
+    ("HeapBytesPagePlusSpare__UnlockedRW__clone_from", p_HeapBytesPagePlusSpare__UnlockedRW__clone_from::run as fn()),
     ("HeapBytesPagePlusSpare__UnlockedRW__t_mlock", p_HeapBytesPagePlusSpare__UnlockedRW__t_mlock::run as fn()),
     ("HeapBytesPagePlusSpare__UnlockedRW__t_munlock", p_HeapBytesPagePlusSpare__UnlockedRW__t_munlock::run as fn()),
     ("HeapBytesPagePlusSpare__UnlockedRW__t_mprotect_readonly", p_HeapBytesPagePlusSpare__UnlockedRW__t_mprotect_readonly::run as fn()),
@@ -699,6 +722,7 @@ const PROGS: &[(&str, fn())] = &[
     ("HeapBytesPagePlusSpare__UnlockedRO__read_index", p_HeapBytesPagePlusSpare__UnlockedRO__read_index::run as fn()),
     ("HeapBytesPagePlusSpare__UnlockedRO__read_range", p_HeapBytesPagePlusSpare__UnlockedRO__read_range::run as fn()),
     ("HeapBytesPagePlusSpare__UnlockedRO__clone", p_HeapBytesPagePlusSpare__UnlockedRO__clone::run as fn()),
+    ("HeapBytesPagePlusSpare__UnlockedRO__clone_from", p_HeapBytesPagePlusSpare__UnlockedRO__clone_from::run as fn()),
     ("HeapBytesPagePlusSpare__UnlockedRO__t_mlock", p_HeapBytesPagePlusSpare__UnlockedRO__t_mlock::run as fn()),
     ("HeapBytesPagePlusSpare__UnlockedRO__t_munlock", p_HeapBytesPagePlusSpare__UnlockedRO__t_munlock::run as fn()),
     ("HeapBytesPagePlusSpare__UnlockedRO__t_mprotect_readonly", p_HeapBytesPagePlusSpare__UnlockedRO__t_mprotect_readonly::run as fn()),
